@@ -10,6 +10,12 @@ from .. import axis as AX
 from ..expr import nf, nf_text
 
 
+LP1C_OK = {
+    ('photutils.segmentation.catalog.SourceCatalog.fluxfrac_radius', 'result'):
+        '`result` is used only when the `found` flag set next to it is True (otherwise NaN is appended and the iteration continues)',
+}
+
+
 def run_loops(repo, res, modules, rules=('LP1', 'LP1b', 'LP2')):
     """Per-source independence of loop iterations in the given modules."""
     n_loops = 0
@@ -47,6 +53,20 @@ def run_loops(repo, res, modules, rules=('LP1', 'LP1b', 'LP2')):
                                     f'{f.qualname}: `{norm_stmt_text(st)}` modifies `{root}` (defined before the loop, or a view of it) '
                                     f'in place with a per-iteration value; it is not the function\'s result accumulator, so later '
                                     f'iterations see the leftovers of earlier ones', {'array': root}))
+            if 'LP1' in rules:
+                stale = [n_ for n_ in LP.check_lp1c(f.node, loop) if (f.fullname, n_.id) not in LP1C_OK]
+                res.oblige('LP1c', f'{f.qualname}: loop at line {loop.lineno}: every loop-local is assigned on every path before it is used',
+                           not stale, nontrivial=True)
+                seen_c = set()
+                for n_ in stale:
+                    if n_.id in seen_c:
+                        continue
+                    seen_c.add(n_.id)
+                    st_ = enclosing_stmt(n_)
+                    res.add(Finding('LP1c', f.fullname, f'{n_.id} used at {norm_stmt_text(st_)}', f'{f.module.relpath}:{n_.lineno}',
+                                    f'{f.qualname}: `{n_.id}` is assigned per iteration inside the loop and is used at `{norm_stmt_text(st_)}` on a '
+                                    f'path of the iteration that did not assign it (e.g. an exception handler that falls through): the value '
+                                    f'computed for the previous source is used for this one', {'name': n_.id}))
             if 'LP2' in rules:
                 hits, nsites = LP.check_lp2(f.node, loop)
                 if nsites:
